@@ -79,6 +79,9 @@ let b2s b = if b then "1" else "0"
 let ints_of s = if s = "" || s = "-" then [] else List.map z_of_dec (String.split_on_char ',' s)
 let of_ints l = String.concat "," (List.map dec_of_z l)
 
+(* (code, payload) outcomes: 0 Ok, 1 Err, 2 Panic *)
+let oc3 show (code, v) = match int_of_nat code with 0 -> "Ok " ^ show v | 1 -> "Err" | _ -> "Panic"
+
 (* ---- dispatch: kind -> inputs -> outputs ---- *)
 let eval (kind : ostring) (ins : ostring list) : ostring list =
   match kind, ins with
@@ -97,6 +100,10 @@ let eval (kind : ostring) (ins : ostring list) : ostring list =
   | "flagset_value", [ty; names] ->
     let ns = List.map bytes_of_string (String.split_on_char ',' names) in
     [match flagset_value (coq_string ty) ns with Some v -> dec_of_z v | None -> "Panic"]
+  | "parse_int", [w; s] ->
+    [oc3 dec_of_z (c09_parse (n_of_dec w) (bytes_of_hx s))]
+  | "ident", [w; x; choice] ->
+    [oc3 hx_of_bytes (c09_ident (choice = "1") (n_of_dec w) (z_of_dec x))]
   | _ -> failwith ("unknown kind " ^ kind)
 
 let () =
